@@ -382,13 +382,16 @@ def check_case(desc: Dict[str, Any], W: int) -> Tuple[Dict[str, int], List[Dict[
     # ---- (b) expand fills the available width
     capped = any(c["width"] is not None or c["max_width"] is not None for c in cols)
     asked = t["expand"] or width is not None
-    if asked and not capped and body:
+    if asked and not capped and body and len(set(lw)) == 1 and not leading_pool:   # unequal lines are clause (a)'s
         target = width if width is not None else W
-        name = "c07.expand_fills_width" + suffix
+        name = "c07.expand_fills_width"
         hit(name)
-        if max(lw) != target or min(lw) != target:
-            fail(name, "expanding table (no column cap) is %s cells wide, available %d" % (sorted(set(lw)), target),
-                 target, {"line_widths": sorted(set(lw)), "column_widths": widths, "lines": body[:8]})
+        if lw[0] != target:
+            # the tag only groups failures by which options are present (so that one cause cannot crowd out another)
+            tag = "+".join(k for k, on in (("min_width", min_width is not None), ("ratio", any(c["ratio"] for c in cols)),
+                                           ("width", width is not None)) if on) or "plain"
+            fail(name, "expanding table (no column cap) is %d cells wide, available %d" % (lw[0], target),
+                 target, {"line_width": lw[0], "column_widths": widths, "lines": body[:8]}, tag)
 
     # ---- spans and borders
     offs = []
@@ -473,6 +476,12 @@ def check_case(desc: Dict[str, Any], W: int) -> Tuple[Dict[str, int], List[Dict[
 
     # ---- (d) fold columns: every character, in order, inside the span, nowhere else
     fold_cols = [j for j, c in enumerate(cols) if c["overflow"] == "fold"]
+    # Two names for clause (d), so that one cause cannot hide the other behind the per-clause cap:
+    #   .starved_column  the table solved a fold column to fewer cells than its padding plus one cell (two with a
+    #                    double-width character, more for a nested frame) although W >= the structural minimum, and
+    #                    characters of that column are lost;
+    #   (plain)          the column got the cells it structurally needs and characters are still lost / misplaced.
+    need_w = [an["pads"][j][0] + an["pads"][j][1] + an["cmin"][j] for j in range(n)]
     if fold_cols and an["grid"]:
         hit("c07.fold_cell_in_column")
         per_cell: Dict[Tuple[int, int], List[str]] = {}
@@ -496,10 +505,19 @@ def check_case(desc: Dict[str, Any], W: int) -> Tuple[Dict[str, int], List[Dict[
                 exp = _cell_markers(cell)
                 got = per_cell.get((i, j), [])
                 if exp != got:
-                    fail("c07.fold_cell_in_column",
-                         "fold column %d, row %d: characters shown differ from the cell's (%d of %d present)" % (j, i, len(got), len(exp)),
-                         "".join(exp), {"shown": "".join(got), "column_width": widths[j], "pads": list(an["pads"][j]),
-                                        "lines": body[:30]}, "sequence")
+                    if widths[j] < need_w[j]:
+                        fail("c07.fold_cell_in_column.starved_column",
+                             "fold column %d solved to %d cells < padding %d + content minimum %d although W=%d >= structural "
+                             "minimum %d; row %d shows %d of %d characters"
+                             % (j, widths[j], sum(an["pads"][j]), an["cmin"][j], W, an["smin"], i, len(got), len(exp)),
+                             "".join(exp), {"shown": "".join(got), "column_widths": widths, "needed": need_w,
+                                            "lines": body[:30]},
+                             "ratio" if any(c["ratio"] for c in cols) else "auto")
+                    else:
+                        fail("c07.fold_cell_in_column",
+                             "fold column %d, row %d: characters shown differ from the cell's (%d of %d present)" % (j, i, len(got), len(exp)),
+                             "".join(exp), {"shown": "".join(got), "column_width": widths[j], "pads": list(an["pads"][j]),
+                                            "lines": body[:30]}, "sequence")
                     break
     return clauses, bad, info
 
@@ -631,6 +649,19 @@ def _size(desc: Dict[str, Any], W: int) -> Tuple[int, int, int]:
     return (len(desc["cols"]) * (len(desc["rows"]) + 1), len(json.dumps(desc)), W)
 
 
+def _pick(lst: list) -> list:
+    """at most MAX_FAIL entries, smallest first, one per `sub` tag before a second of any"""
+    lst = sorted(lst, key=lambda x: x[0])
+    out, rest, seen = [], [], set()
+    for e in lst:
+        if e[3]["sub"] not in seen:
+            seen.add(e[3]["sub"])
+            out.append(e)
+        else:
+            rest.append(e)
+    return (out + rest)[:MAX_FAIL] if len(out) < MAX_FAIL else out[:MAX_FAIL]
+
+
 def _work(args) -> Dict[str, Any]:
     tier, seed, lo, hi, leading_pool = args
     clauses: Dict[str, int] = {}
@@ -652,13 +683,13 @@ def _work(args) -> Dict[str, Any]:
                 clauses[k] = clauses.get(k, 0) + v
             if info.get("body", 0) > 0:
                 nontrivial_evals += 1
-                sigs.add(sig + _wclass(W - smin).encode())
+                avail = info["width"] if info.get("width") is not None else W
+                sigs.add(sig + _wclass(avail - smin).encode())
             for b in bad:
                 fail_counts[b["check"]] = fail_counts.get(b["check"], 0) + 1
                 lst = fails.setdefault(b["check"], [])
                 lst.append((_size(desc, W), desc, W, b))
-                lst.sort(key=lambda x: x[0])
-                del lst[MAX_FAIL:]
+                fails[b["check"]] = _pick(lst)
         if idx < lo + 1 and lo == 0:
             samples.append({"desc": desc, "W": smin + 3})
     return {"clauses": clauses, "fails": fails, "fail_counts": fail_counts, "sigs": sigs, "evals": evals,
@@ -854,7 +885,7 @@ def run(tier: str, seed: int) -> dict:
             cands.setdefault(k, []).extend(v)
     failures = []
     for clause in sorted(cands):
-        lst = sorted(cands[clause], key=lambda x: x[0])[:MAX_FAIL]
+        lst = _pick(cands[clause])
         seen_keys = set()
         for _size_, desc, W, b in lst:
             d2, W2, b2 = minimise(desc, W, clause)
@@ -883,7 +914,7 @@ def run(tier: str, seed: int) -> dict:
                 "table/column option and every cell content is drawn from a PRNG seeded with (seed, i)); each table is "
                 "rendered at the widths listed in `bound`; a case is non-trivial when the rendered body has at least one "
                 "line; distinct = distinct (table+column option signature incl. row count and cell kinds, width class "
-                "W - structural minimum in {0,1,2,3,4-6,7-13,14-40,>40}) pairs",
+                "(table width if given, else W) - structural minimum in {0,1,2,3,4-6,7-13,14-40,>40}) pairs",
         "bound": "%d tables (+%d in the separate leading>=2 pool); 1..6 columns x 0..8 rows; box in %s; padding in %s; "
                  "leading 0/1 (pool: 2/3); cells: words, several words, multi-line, 8-12 character words, CJK/Hangul/"
                  "kana/emoji mixes, empty, nested Panel, nested Table (<=2x2); column justify x overflow x ratio "
